@@ -86,7 +86,7 @@ func Normalize(text string) (out []NTok, st reflex.Status, why string) {
 			}
 		}
 	}
-	isID := func(t NTok, w string) bool { return t.K == "ID" && !t.Quoted && strings.EqualFold(t.V, w) }
+	isID := func(t NTok, w string) bool { return t.K == "ID" && !t.Quoted && asciiEqualFold(t.V, w) }
 	isKW := func(t NTok, w string) bool { return t.K == "KW" && t.V == w }
 	isP := func(t NTok, w string) bool { return t.K == "P" && t.V == w }
 	// noise words and optional commas
@@ -141,7 +141,7 @@ func Normalize(text string) (out []NTok, st reflex.Status, why string) {
 // regroupCreateTable reorders the elements of every CREATE TABLE column list by kind
 // (columns, table constraints, synonyms), keeping the order inside each kind.
 func regroupCreateTable(toks []NTok) []NTok {
-	isID := func(t NTok, w string) bool { return t.K == "ID" && !t.Quoted && strings.EqualFold(t.V, w) }
+	isID := func(t NTok, w string) bool { return t.K == "ID" && !t.Quoted && asciiEqualFold(t.V, w) }
 	for i := 0; i+1 < len(toks); i++ {
 		if !(toks[i].K == "KW" && toks[i].V == "CREATE" && isID(toks[i+1], "TABLE")) {
 			continue
@@ -239,7 +239,7 @@ func SameTok(a, b NTok) bool {
 	if a.V == b.V {
 		return true
 	}
-	if a.K == "ID" && strings.EqualFold(a.V, b.V) && PseudoKeywords[strings.ToUpper(a.V)] {
+	if a.K == "ID" && asciiEqualFold(a.V, b.V) && PseudoKeywords[asciiUpper(a.V)] {
 		return true
 	}
 	return false
@@ -255,8 +255,8 @@ func repTok(t NTok) string {
 	if t.K == "KW" || t.K == "P" {
 		return t.V
 	}
-	if t.K == "ID" && PseudoKeywords[strings.ToUpper(t.V)] {
-		return strings.ToUpper(t.V)
+	if t.K == "ID" && PseudoKeywords[asciiUpper(t.V)] {
+		return asciiUpper(t.V)
 	}
 	return t.K
 }
@@ -401,3 +401,17 @@ func DiffToks(want, got []NTok) (sig, desc string) {
 		return "changed:" + repToks(h.want, 3) + "->" + repToks(h.got, 3), "input has [" + showToks(h.want) + "], SQL() has [" + showToks(h.got) + "]" + ctx
 	}
 }
+
+// asciiUpper / asciiEqualFold: keyword and pseudo-keyword matching is ASCII-only (Unicode case folding would equate
+// U+017F with 's' and U+212A with 'k').
+func asciiUpper(s string) string {
+	b := []byte(s)
+	for i, c := range b {
+		if c >= 'a' && c <= 'z' {
+			b[i] = c - 32
+		}
+	}
+	return string(b)
+}
+
+func asciiEqualFold(a, b string) bool { return len(a) == len(b) && asciiUpper(a) == asciiUpper(b) }
